@@ -489,7 +489,7 @@ def check(run):
     from ..opt import check_axisless_reductions
     _B = 'pb_bss.extraction.beamformer::'
     _n = check_axisless_reductions(run, A, [_B + f for f in (
-        'get_power_spectral_density_matrix', 'get_pca', 'get_pca_vector', 'get_mvdr_vector', 'get_gev_vector', 'blind_analytic_normalization', 'condition_covariance',
+        'get_power_spectral_density_matrix', 'get_pca', 'get_pca_vector', 'get_mvdr_vector', 'get_gev_vector', '_get_gev_vector', 'get_lcmv_vector', 'blind_analytic_normalization', 'condition_covariance',
         'phase_correction', 'get_mvdr_vector_souden', 'get_wmwf_vector', 'apply_beamforming_vector')] + ['pb_bss.math.solve::stable_solve'])
     run.floor('C13 data reductions in per-index helpers', _n, 5)
     from ..opt import check_optional_truthiness, check_params_reach, check_forwarding, check_stale_loop_variables, check_argument_names, check_none_use
